@@ -288,7 +288,12 @@ def dev_line(rng, size):
     return "dev %d %d" % (size, rng.choice([0, 0, 0, 209, 229, 65]))
 
 
-def gen_session(rng, conf, nops, mutating=True, file_io=True, mount="mount 1 0 lossy", prelude=None):
+def mount_line(rng):
+    """mount with the accessed-date option off (default) or on: with it, a read marks the entry for write-back"""
+    return "mount 1 %d lossy" % rng.choice([0, 0, 1])
+
+
+def gen_session(rng, conf, nops, mutating=True, file_io=True, mount=None, prelude=None):
     label, size, fmt = conf
     g = Gen(rng, mutating, file_io)
     try:
@@ -297,7 +302,7 @@ def gen_session(rng, conf, nops, mutating=True, file_io=True, mount="mount 1 0 l
         g.cluster = bps if toks[3] == "-" else int(toks[3])
     except Exception:
         pass
-    head = [dev_line(rng, size), "wlog 0", fmt, "pages", "wlog 1", mount]
+    head = [dev_line(rng, size), "wlog 0", fmt, "pages", "wlog 1", mount if mount is not None else mount_line(rng)]
     if prelude:
         head += prelude
     while len(g.lines) < nops:
@@ -586,7 +591,7 @@ def boundary_volumes(rng, tier):
         size = ts * bps
         dev = dev_line(rng, size) if fill is None else "dev %d %d" % (size, fill)
         fmt = "format %d %d %s %s %s %s - - -" % (bps, ts, bpc, fat, root, fats)
-        out.append((label, [dev, "wlog 0", fmt] + list(pokes) + ["pages", "wlog 1", "mount 1 0 lossy"], int(bpc) if bpc != "-" else bps))
+        out.append((label, [dev, "wlog 0", fmt] + list(pokes) + ["pages", "wlog 1", mount_line(rng)], int(bpc) if bpc != "-" else bps))
     # table without a spare entry behind the last cluster
     for bits, start in ((12, 300), (16, 4400), (32, 66600)):
         ts = vlib.exact_fit_sectors(512, 512, start, bits)
@@ -624,7 +629,8 @@ def standard_script(rng, cs):
     h = hexs
     L = ["list 0", "stats",
          "create_file 0 %s 1" % h("empty.bin"), "drop_file 1",
-         "create_file 0 %s 2" % h("One Cluster.bin"), "write_pat 2 %d 1" % cs, "seek 2 start %d" % cs, "seek 2 cur 0", "read 2 5", "drop_file 2",
+         "create_file 0 %s 2" % h("One Cluster.bin"), "write_pat 2 %d 1" % cs, "seek 2 start %d" % cs, "seek 2 cur 0", "read 2 5",
+         "seek 2 start 3", "read 2 7", "drop_file 2",
          "create_file 0 %s 3" % h("three and a bit.bin"), "write_pat 3 %d 2" % (cs - 1), "write_pat 3 2 3", "write_pat 3 %d 4" % (2 * cs + 5), "flush 3",
          "seek 3 start %d" % cs, "seek 3 cur 1", "read 3 %d" % cs, "seek 3 start %d" % (2 * cs), "seek 3 start %d" % (3 * cs + 1), "read 3 10",
          "seek 3 start %d" % cs, "seek 3 end -1", "read 3 9", "seek 3 start %d" % (2 * cs), "truncate 3", "seek 3 end 0", "write_pat 3 %d 5" % (cs + 3), "flush 3",
@@ -632,6 +638,14 @@ def standard_script(rng, cs):
          "create_dir 0 %s 4" % h("Dir A"), "create_dir 4 %s 5" % h("nested dir with a long name"), "drop_dir 5"]
     for k in range(9):
         L += ["create_file 4 %s 6" % h("entry number %02d in dir a.txt" % k), "write_pat 6 %d %d" % ((k % 3) * cs + k, k), "drop_file 6"]
+    L += ["create_dir 0 %s 11" % h("anc a"), "create_dir 11 %s 12" % h("anc b"), "create_dir 0 %s 13" % h("anc c"),
+          "create_file 12 %s 14" % h("inner.txt"), "write_pat 14 10 1", "drop_file 14", "drop_dir 12", "drop_dir 11", "drop_dir 13",
+          "rename 0 %s 0 %s" % (h("anc a/anc b"), h("anc c/anc b")),                 # b now lives under c
+          "rename 0 %s 0 %s" % (h("anc c"), h("anc c/anc b/below itself")),         # c under its own (moved) sub-directory: refused
+          "rename 0 %s 0 %s" % (h("anc c/anc b"), h("anc b top")),                  # b to the root
+          "rename 0 %s 0 %s" % (h("anc a"), h("anc b top/anc a")),                  # legal: a under b (b is no longer below a)
+          "rename 0 %s 0 %s" % (h("anc b top"), h("anc b top/anc a/loop")),         # refused
+          "list 0", "open_file 0 %s 14" % h("anc b top/inner.txt"), "read_all 14 100", "drop_file 14"]
     L += ["list 4", "stats",
           "rename 0 %s 0 %s" % (h("One Cluster.bin"), h("ONE CLUSTER.BIN")),
           "rename 0 %s 4 %s" % (h("three and a bit.bin"), h("moved into dir a.bin")),
